@@ -506,18 +506,13 @@ fn as_set(z: &[RR], mask_serial_at: Option<&str>) -> BTreeSet<RR> {
 }
 
 // ------------------------------------------------------------------------------------------------
-// classes of known deviations, computed from (zone before, message)
+// classes of the known deviations that are still open, computed from (zone before, prerequisites).
+// (Seven other deviations found by this check were repaired in /repo — known-findings.json `fixed` —
+// and are ordinary violations again.)
 // ------------------------------------------------------------------------------------------------
 
-pub const CL_OVERFLOW: &str = "soa-serial-increment-overflow";
-pub const CL_PLAINCMP: &str = "soa-serial-plain-compare";
-pub const CL_NONAPEX_SOA: &str = "non-apex-soa-added";
-pub const CL_DUP_TTL: &str = "duplicate-rdata-ttl-not-replaced";
-pub const CL_CNAME_READD: &str = "identical-cname-readd-bumps-serial";
-pub const CL_GHOST: &str = "emptied-rrset-left-in-zone";
 pub const CL_PRE_LOOKUP: &str = "prereq-uses-query-lookup";
 pub const CL_PRE_SUBSET: &str = "prereq-value-dependent-subset";
-pub const CL_T65535: &str = "type-65535-escapes-cname-check";
 
 fn parent_tok(n: &str) -> Option<String> {
     // "F:aa.bb.cc" → "F:bb.cc"
@@ -532,79 +527,14 @@ fn parent_tok(n: &str) -> Option<String> {
 }
 
 struct Triggers {
-    t65535: bool,
-    soa_lost: bool,
-    overflow: bool,
-    plaincmp: bool,
-    nonapex_soa: bool,
-    dup_ttl: bool,
-    cname_readd: bool,
-    ghost: bool,
     pre_lookup: bool,
     pre_subset: bool,
 }
 
-fn triggers(before: &Snap, zname: &str, pre: &[MRR], upd: &[MRR]) -> Triggers {
+fn triggers(before: &Snap, zname: &str, pre: &[MRR]) -> Triggers {
     let z = &before.rrs;
-    let mut serials = vec![before.serial];
-    // a zone that has already lost its apex SOA can only be the aftermath of the overflow panic
-    // (`increment_soa_serial` removes the SOA before `serial += 1`); every later message meets it
-    let soa_lost = !z.iter().any(|r| r.rtype == T_SOA && r.name == zname);
-    // a CNAME meets (in the zone or in this message) an RRset of type 65535 at the same name: the range
-    // scan of `upsert` ends *before* `Unknown(65535)`
-    let t65535 = z.iter().map(|r| (&r.name, r.rtype)).chain(upd.iter().filter(|r| r.class == C_IN).map(|r| (&r.name, r.rtype))).any(|(nm, ty)| {
-        ty == 65535
-            && (z.iter().any(|r| &r.name == nm && r.rtype == T_CNAME) || upd.iter().any(|r| r.class == C_IN && &r.name == nm && r.rtype == T_CNAME))
-    });
-    let mut t = Triggers { t65535, soa_lost, overflow: before.serial == u32::MAX || soa_lost, plaincmp: false, nonapex_soa: false, dup_ttl: false, cname_readd: false, ghost: false, pre_lookup: false, pre_subset: false };
-    // RRs the message itself has added so far (for duplicates inside one message)
-    let mut added: Vec<&MRR> = vec![];
-    let mut emptied_names: Vec<&str> = before.ghosts.iter().map(|g| g.0.as_str()).collect();
-    for rr in upd {
-        if emptied_names.contains(&rr.name.as_str()) {
-            t.ghost = true;
-        }
-        if rr.class == C_IN && rr.rtype == T_SOA {
-            if rr.name != zname {
-                t.nonapex_soa = true;
-            } else if let Some(ns) = (RR { name: String::new(), rtype: T_SOA, ttl: 0, rd: rr.rd.clone() }).soa_serial() {
-                if ns == u32::MAX {
-                    t.overflow = true;
-                }
-                for &s in &serials {
-                    if (ns > s) != serial_lt(s, ns) {
-                        t.plaincmp = true;
-                    }
-                }
-                serials.push(ns);
-                if ns < u32::MAX {
-                    serials.push(ns + 1);
-                }
-            }
-        }
-        if rr.class == C_IN && rr.rtype != T_SOA {
-            let same_in_zone = z.iter().any(|r| r.name == rr.name && r.rtype == rr.rtype && r.rd == rr.rd && r.ttl != rr.ttl);
-            let same_in_msg = added.iter().any(|r| r.name == rr.name && r.rtype == rr.rtype && r.rd == rr.rd && r.ttl != rr.ttl);
-            if rr.rtype != T_CNAME && (same_in_zone || same_in_msg) {
-                t.dup_ttl = true;
-            }
-            if rr.rtype == T_CNAME
-                && (z.iter().any(|r| r.name == rr.name && r.rtype == T_CNAME && r.rd == rr.rd && r.ttl == rr.ttl)
-                    || added.iter().any(|r| r.name == rr.name && r.rtype == T_CNAME && r.rd == rr.rd && r.ttl == rr.ttl))
-            {
-                t.cname_readd = true;
-            }
-            added.push(rr);
-        }
-        if rr.class == C_NONE {
-            // a class-NONE delete may empty a set; anything later at that name meets the leftover
-            emptied_names.push(rr.name.as_str());
-        }
-    }
+    let mut t = Triggers { pre_lookup: false, pre_subset: false };
     for rr in pre {
-        if before.ghosts.iter().any(|g| g.0 == rr.name) {
-            t.ghost = true;
-        }
         if !rr.in_zone {
             continue;
         }
@@ -684,17 +614,17 @@ pub fn judge(origin: &Name, before: &Snap, after: &Snap, pre: &[Record], upd: &[
     let zname = name_tok(&lower_name(origin));
     let pre_m: Vec<MRR> = pre.iter().map(|r| mrr(origin, r)).collect();
     let upd_m: Vec<MRR> = upd.iter().map(|r| mrr(origin, r)).collect();
-    let t = triggers(before, &zname, &pre_m, &upd_m);
+    let t = triggers(before, &zname, &pre_m);
     let mut fails: Vec<(String, String)> = vec![];
     let accepted = stage == "apply" && (res == "ok0" || res == "ok1");
     let changed = as_set(&before.rrs, Some(&zname)) != as_set(&after.rrs, Some(&zname));
 
     if res == "panic" {
-        fails.push(("update panicked".into(), first(&[(t.overflow, CL_OVERFLOW)]).into()));
+        fails.push(("update panicked".into(), "".into()));
     }
     // --- prerequisites judged against the zone as it is now
     let pe = ref_prereq(&before.rrs, &pre_m);
-    let pre_cls = first(&[(t.pre_lookup, CL_PRE_LOOKUP), (t.pre_subset, CL_PRE_SUBSET), (t.ghost, CL_GHOST)]);
+    let pre_cls = first(&[(t.pre_lookup, CL_PRE_LOOKUP), (t.pre_subset, CL_PRE_SUBSET)]);
     if stage == "prereq" {
         if pe.is_empty() {
             fails.push((format!("prerequisites hold on the current zone (RFC 2136 §3.2) but the update was rejected with {res}"), pre_cls.into()));
@@ -729,23 +659,13 @@ pub fn judge(origin: &Name, before: &Snap, after: &Snap, pre: &[Record], upd: &[
             let want = as_set(&ref_apply(&before.rrs, &zname, &upd_m, VARIANTS[1]), Some(&zname));
             let missing: Vec<String> = want.difference(&got).take(3).map(|r| format!("{}/{} {}:{}", r.name, r.rtype, r.ttl, r.rd)).collect();
             let extra: Vec<String> = got.difference(&want).take(3).map(|r| format!("{}/{} {}:{}", r.name, r.rtype, r.ttl, r.rd)).collect();
-            let cls = first(&[(t.plaincmp, CL_PLAINCMP), (t.nonapex_soa, CL_NONAPEX_SOA), (t.dup_ttl, CL_DUP_TTL), (t.ghost, CL_GHOST), (t.t65535, CL_T65535)]);
+            let cls = "";
             fails.push((format!("zone after the update differs from RFC 2136 §3.4.2: missing {missing:?} unexpected {extra:?}"), cls.into()));
         }
     }
     // --- invariants after every message
-    for (kind, what) in check_invariants(after, &zname) {
-        let cls = match kind {
-            "apex-soa" => first(&[(t.overflow, CL_OVERFLOW)]),
-            "extra-soa" => {
-                // an SOA away from the apex stays there: every later message meets it again
-                let had = before.rrs.iter().any(|r| r.rtype == T_SOA && r.name != zname);
-                first(&[(t.nonapex_soa || had, CL_NONAPEX_SOA)])
-            }
-            "cname" => first(&[(t.t65535, CL_T65535)]),
-            _ => "",
-        };
-        fails.push((what, cls.into()));
+    for (_kind, what) in check_invariants(after, &zname) {
+        fails.push((what, "".into()));
     }
     // --- the serial has strictly advanced (RFC 1982) iff the content changed
     if res != "panic" {
@@ -763,7 +683,7 @@ pub fn judge(origin: &Name, before: &Snap, after: &Snap, pre: &[Record], upd: &[
         }
         let via_explicit = steps > 0 && (after.serial == cur || after.serial == cur.wrapping_add(1));
         let adv = serial_lt(before.serial, after.serial) || via_explicit;
-        let cls = first(&[(t.overflow, CL_OVERFLOW), (t.plaincmp, CL_PLAINCMP), (t.cname_readd, CL_CNAME_READD), (t.ghost, CL_GHOST), (t.nonapex_soa, CL_NONAPEX_SOA)]);
+        let cls = "";
         if changed && !adv {
             fails.push((format!("zone content changed but the SOA serial did not advance ({} → {})", before.serial, after.serial), cls.into()));
         }
@@ -772,11 +692,6 @@ pub fn judge(origin: &Name, before: &Snap, after: &Snap, pre: &[Record], upd: &[
         let touched = VARIANTS.iter().any(|v| ref_apply_steps(&before.rrs, &zname, &upd_m, *v).1);
         if !changed && !touched && after.serial != before.serial && !(explicit_soa && accepted && adv) {
             fails.push((format!("zone content unchanged but the SOA serial moved ({} → {})", before.serial, after.serial), cls.into()));
-        }
-    }
-    if t.soa_lost {
-        for f in fails.iter_mut() {
-            f.1 = CL_OVERFLOW.into();
         }
     }
     Verdict { fails, changed, accepted }
@@ -932,8 +847,8 @@ pub fn exec(line: &str, hist: &mut Hist, rec: &mut Recorder) {
             let zname = name_tok(&lower_name(&hist.origin));
             let pm: Vec<MRR> = p.iter().map(|r| mrr(&hist.origin, r)).collect();
             let pe = ref_prereq(&before.rrs, &pm);
-            let t = triggers(&before, &zname, &pm, &[]);
-            let cls = first(&[(t.soa_lost, CL_OVERFLOW), (t.pre_lookup, CL_PRE_LOOKUP), (t.pre_subset, CL_PRE_SUBSET), (t.ghost, CL_GHOST)]);
+            let t = triggers(&before, &zname, &pm);
+            let cls = first(&[(t.pre_lookup, CL_PRE_LOOKUP), (t.pre_subset, CL_PRE_SUBSET)]);
             let bad = if res == "ok" { !pe.is_empty() } else { !pe.contains(res.as_str()) };
             if bad {
                 rec.stat(&format!("oracle.fail.{}", if cls.is_empty() { "UNCLASSIFIED" } else { cls }));
